@@ -528,8 +528,7 @@ LEVEL_TEXT = ('Machine-checked proof (Coq 8.16.1) over an executable model of ha
               'can_view = view or edit; to_json includes only objects the specification lets the user view and refuses exactly otherwise; repeated checks in a session are stable '
               'under changing providers. The model carries the three decision-relevant variation points of the source as parameters; their values are re-read from /repo on every '
               'run (the repaired spellings are required by the property theorems) and the whole decision table is compared with the real API exhaustively in a small scope.')
-LEVEL_NOTE = ('Trusted: Coq kernel + vm_compute; the hand-written model (tied by exhaustive small-scope correspondence and by the source recogniser, not by translation); my '
-              'reading of the statement for attribute checks (either side of a relationship may grant). Not modelled: hidden attributes in the correspondence run, '
-              'inheritance (_subclasses_ in exclude / set_perms_for), the schema part of to_json, create/delete permissions (same code path as view/edit).')
+LEVEL_NOTE = ('Also proved and tied: the schema section of to_json, to_json with include, declarations with entity inheritance and hidden attributes, the cross-session lifetime of the provider caches. Trusted: Coq kernel + vm_compute; the hand-written model (tied by exhaustive small-scope correspondence and by the source recogniser, not by translation); my '
+              'reading of the statement for attribute checks (either side of a relationship may grant). Not modelled: create/delete permissions (same code path as view/edit), the attribute-level exclude option of to_json.')
 TECHNIQUE = 'Coq proof (induction over rule lists and check histories) against a directly written specification; source recogniser; exhaustive small-scope vm_compute correspondence with the real API; specification-level oracle search'
 DESIGN_REF = 'DESIGN.md section 5, C34'
